@@ -323,6 +323,20 @@ def run(ctx) -> list[Inst]:
                             if isinstance(n_, ast.Call) and isinstance(n_.func, ast.Attribute) \
                                     and n_.func.attr in ('append', 'extend', 'add', 'remove', 'pop', 'discard') and chain_has(n_.func.value):
                                 untyped_sites += 1
+                    # a private one-sided helper (`node._add_compromising_attacker(a)`): the pairing is the callers' job -
+                    # every caller must perform the converse update next to the call
+                    sites_ = callers.get(f.qname, [])
+                    if not ok and f.name.startswith('_') and not f.name.startswith('__') and sites_:
+                        def caller_mirrors(h, hnode):
+                            hf = an.of(h)
+                            hm = [d for d in hf.effects if field_of(d, cb, fb) and dclass(d) == c and d.node is not None
+                                  and (not d.chain or d.cmust)]
+                            return covered(ctx.cfg(h), hnode, [d.node for d in hm]) if hnode is not None else bool(hm)
+                        if all(caller_mirrors(h, hnode) for (h, _c, hnode) in sites_):
+                            insts.append(Inst(RULE, f.short, construct, 'ok',
+                                              msg=f'one-sided private helper; every one of its {len(sites_)} callers performs the converse update next to the call',
+                                              file=rel, line=e.lineno, props=props))
+                            continue
                     if ok:
                         insts.append(Inst(RULE, f.short, construct, 'ok', msg=why, file=rel,
                                           line=e.lineno, props=props))
@@ -533,8 +547,22 @@ def _setlike(ctx) -> list:
                         guarded = True
             construct = f'SETLIKE: {ltxt}.append({xtxt}) cannot add a duplicate'
             props = ('C09', 'C11', 'C13') if lst.attr != 'entry_points' else ('C09', 'C11', 'C13', 'C10')
-            if guarded:
-                insts.append(Inst(RULE, f.short, construct, 'ok', file=rel, line=n.lineno, props=props))
+            guard_at_callers = False
+            if not guarded and f.name.startswith('_') and not f.name.startswith('__'):
+                # a private one-statement helper: the membership guard belongs to its callers
+                sites_ = _callers(ctx).get(f.qname, [])
+                def caller_guards(h, hnode):
+                    hcfg = ctx.cfg(h)
+                    for g_ in hcfg.nodes:
+                        if g_.kind == 'if' and hnode is not None and hcfg.dominates(g_, hnode) and g_ is not hnode:
+                            t_ = stmt_text(g_.ast.test, 300)
+                            if 'is_compromised_by' in t_ or (' in ' in t_ and lst.attr in t_):
+                                return True
+                    return False
+                guard_at_callers = bool(sites_) and all(caller_guards(h, hn) for (h, _c, hn) in sites_)
+            if guarded or guard_at_callers:
+                insts.append(Inst(RULE, f.short, construct, 'ok', msg='guarded at every call site' if guard_at_callers else '',
+                                  file=rel, line=n.lineno, props=props))
             else:
                 insts.append(Inst(
                     RULE, f.short, construct, 'violation',
